@@ -40,6 +40,8 @@ impl ProcessRegistry {
 
     pub async fn remove(&self, pid: &ExternalPid) -> Option<ProcessHandle> {
         let handle = self.by_pid.write().await.remove(pid);
+        #[cfg(edp_verif)]
+        edp_client::verif::yield_point("registry.between_pid_and_name_removal").await;
         // A process that is gone must not keep its registered names.
         self.by_name.write().await.retain(|_, owner| owner != pid);
         handle
